@@ -1,15 +1,23 @@
 /-
   Driver.ModeD — line-protocol handlers for Model.Mode / Spec.Mode (C05).
 
-    mode <ECB|CBC|CTR|CTS_ECB|CTS_CBC> <toy id> <blockbytes> <key> <iv/counter or -> <padding> <enc|dec|rt|enc2> <msg>
+    mode <ECB|CBC|CTR|CTS_ECB|CTS_CBC> <cipher> <blockbytes> <key> <iv/counter or -> <padding> <enc|dec|rt|enc2|er|xd> <msg>
         -> (model, spec)       spec is `-` outside the property's domain
+      <cipher> = rot | aff            toy ciphers (Model.ToyCipher), key = x<hex> of blockbytes bytes
+               = AES | DES | SERPENT   the library's ciphers: Model.Mode over Model.Aes / Model.Des / Model.Serpent (model column),
+                                       Spec.Mode over FIPS 197 / FIPS 46-3 / the Serpent submission (spec column); key = x<hex>
+               = TDEA                  key = x<K1> | x<K1>,x<K2> | x<K1>,x<K2>,x<K3>   (the calling forms of TDEA(K1,K2,K3))
+      verb er = `enc(M);dec(enc(M))` (one encryption, one decryption with an equally configured object)
+      verb xd = decryption, with the padding scheme, of the nopadding-encryption of <msg> (= unpad(<msg>): good and damaged paddings)
     modert <mode> <cipher name> <blockbytes> <key> <iv or -> <padding> <msg>
         -> the summary `rt-ok len=<n>` the length laws predict for a real cipher of that block length
 -/
 import Driver.Wire
 import Model.Mode
 import Model.ToyCipher
+import Model.ModeCiphers
 import Spec.Mode
+import Spec.ModeCiphers
 namespace Driver.ModeD
 open Model Driver
 
@@ -35,36 +43,52 @@ def parseIv? (s : String) : Option (Option (List Nat)) :=
 
 def fmtR : Except Err (List Nat) → String := fmtE fmtBytes
 
+/-- enc / dec of a mode object `mode(cipher[,iv],pad=s)` -/
+def ops? (mode : String) (c : BlockCipher) (iv : Option (List Nat)) (s : Scheme) :
+    Option ((List Nat → Except Err (List Nat)) × (List Nat → Except Err (List Nat))) :=
+  match mode, iv with
+  | "ECB", none => some (Mode.ECB.enc c s, fun x => Mode.ECB.dec c s x)
+  | "CTS_ECB", none => some (Mode.CTS_ECB.enc c s, Mode.CTS_ECB.dec c s)
+  | "CBC", some iv => some (Mode.CBC.enc c iv s, fun x => Mode.CBC.dec c iv s x)
+  | "CTS_CBC", some iv => some (Mode.CTS_CBC.enc c iv s, Mode.CTS_CBC.dec c iv s)
+  | "CTR", iv => if s = .no then some (Mode.CTR.enc c iv, Mode.CTR.dec c iv) else none
+  | _, _ => none
+
 def modelRun (mode : String) (c : BlockCipher) (iv : Option (List Nat)) (s : Scheme) (verb : String) (m : List Nat) :
     Option String :=
-  let encdec? : Option ((List Nat → Except Err (List Nat)) × (List Nat → Except Err (List Nat))) :=
-    match mode, iv with
-    | "ECB", none => some (Mode.ECB.enc c s, fun x => Mode.ECB.dec c s x)
-    | "CTS_ECB", none => some (Mode.CTS_ECB.enc c s, Mode.CTS_ECB.dec c s)
-    | "CBC", some iv => some (Mode.CBC.enc c iv s, fun x => Mode.CBC.dec c iv s x)
-    | "CTS_CBC", some iv => some (Mode.CTS_CBC.enc c iv s, Mode.CTS_CBC.dec c iv s)
-    | "CTR", iv => if s = .no then some (Mode.CTR.enc c iv, Mode.CTR.dec c iv) else none
-    | _, _ => none
-  match encdec? with
+  match ops? mode c iv s with
   | none => none
   | some (e, d) =>
     match verb with
+    | "xd" =>
+      -- encrypt the (already padded) string without padding, decrypt with the scheme
+      match ops? mode c iv .no with
+      | some (e0, _) => some (fmtR (e0 m >>= d))
+      | none => none
     | "enc" | "enc2" => some (fmtR (e m))
     | "dec" => some (fmtR (d m))
     | "rt" => some (fmtR (e m >>= d))
+    | "er" =>
+      match e m with
+      | .error _ => some "ERR"
+      | .ok C =>
+        match d C with
+        | .error _ => some "ERR"
+        | .ok M => some (fmtBytes C ++ ";" ++ fmtBytes M)
     | _ => none
 
 def allBytes (l : List Nat) : Bool := l.all (· < 256)
 
 /-- the property's right-hand side, where it speaks -/
-def specRun (mode : String) (n : Nat) (E D : List Nat → List Nat) (key : List Nat) (iv : Option (List Nat))
+def specRun (mode : String) (k? : Option Spec.Mode.Cipher) (iv : Option (List Nat))
     (s : Scheme) (verb : String) (m : List Nat) : String :=
-  match specScheme? s with
-  | none => "-"
-  | some ss =>
-    let k : Spec.Mode.Cipher := ⟨n, E, D⟩
+  match specScheme? s, k? with
+  | none, _ => "-"
+  | _, none => "-"
+  | some ss, some k =>
+    let n := k.len
     let padded : Bool := ss != .none
-    let okCfg : Bool := n > 0 && key.length == n && (!padded || n < 256)
+    let okCfg : Bool := n > 0 && (!padded || n < 256)
     let ivOk : Bool := match iv with | some v => v.length == n | none => true
     if !(okCfg && ivOk) then "-" else
     let encDom : Bool :=
@@ -84,6 +108,14 @@ def specRun (mode : String) (n : Nat) (E D : List Nat → List Nat) (key : List 
     match verb with
     | "enc" | "enc2" => if encDom then (match encSpec with | some r => fmtBytes r | none => "-") else "-"
     | "rt" => if encDom && encSpec.isSome then fmtBytes m else "-"
+    | "er" => if encDom then (match encSpec with | some r => fmtBytes r ++ ";" ++ fmtBytes m | none => "-") else "-"
+    | "xd" =>
+      -- dec(enc_nopadding(P)) = unpad(P) for a non-empty block multiple P
+      if (mode == "ECB" && iv.isNone || mode == "CBC" && iv.isSome) && m.length % n == 0 && m.length > 0 then
+        match Spec.ModePad.unpad ss n m with
+        | some x => fmtBytes x
+        | none => if ss == .bit && !((m.drop (m.length - n)).all (· = 0)) then "-" else "ERR"
+      else "-"
     | "dec" =>
       let unp (r : Option (List Nat)) (lastBlockZero : Bool) : String :=
         match r with
@@ -102,6 +134,8 @@ def specRun (mode : String) (n : Nat) (E D : List Nat → List Nat) (key : List 
           let P := Spec.Mode.cbcDecrypt k iv0 cs
           unp (Spec.Mode.cbcInv k ss m) ((P.getLast?.getD []).all (· = 0))
       | "CTR", iv => if encDom then fmtBytes (Spec.Mode.ctr k (iv.getD (List.replicate n 0)) m) else "-"
+      | "CTS_ECB", none => if !padded && m.length ≥ n then fmtBytes (Spec.Mode.ecbCtsInv k m) else "-"
+      | "CTS_CBC", some _ => if !padded && m.length ≥ 2 * n then fmtBytes (Spec.Mode.cbcCtsInv k m) else "-"
       | _, _ => "-"
     | _ => "-"
 
@@ -116,18 +150,57 @@ def lawLen (mode : String) (n : Nat) (s : Scheme) (mlen : Nat) : Option Nat :=
   | "CTS_CBC" => some (mlen + n)
   | _ => none
 
+/-- the cipher object (its construction may raise) and the standard's cipher it stands for (none = the standard does
+    not define a cipher for this key) -/
+def instance? (cid : String) (n : Nat) (keys : List (List Nat)) : Option (Except Err BlockCipher × Option Spec.Mode.Cipher) :=
+  let isB (k : List Nat) : Bool := allBytes k
+  match cid, keys with
+  | "AES", [key] =>
+    if n ≠ 16 then none else
+    some (Mode.Ciphers.aes? key,
+      if (key.length == 16 || key.length == 24 || key.length == 32) && isB key then some (Spec.ModeCiphers.fips197 key) else none)
+  | "DES", [key] =>
+    if n ≠ 8 then none else
+    some (Mode.Ciphers.des? key, if key.length == 8 && isB key then some (Spec.ModeCiphers.fips46 key) else none)
+  | "SERPENT", [key] =>
+    if n ≠ 16 then none else
+    some (Mode.Ciphers.serpent? key, if key.length ≤ 32 && isB key then some (Spec.ModeCiphers.serpentShared key) else none)
+  | "TDEA", k1 :: rest =>
+    if n ≠ 8 then none else
+    let args? : Option (Option (List Nat) × Option (List Nat)) :=
+      match rest with
+      | [] => some (none, none)
+      | [k2] => some (some k2, none)
+      | [k2, k3] => some (some k2, some k3)
+      | _ => none
+    match args? with
+    | none => none
+    | some (K2, K3) =>
+      let ko? := (Spec.ModeCiphers.keyingOfCall k1 K2 K3).bind fun ko =>
+        let (a, b, c) := ko.bundle
+        if a.length == 8 && b.length == 8 && c.length == 8 && isB a && isB b && isB c then some ko else none
+      some (Mode.Ciphers.tdea? k1 K2 K3, ko?.map Spec.ModeCiphers.sp80067)
+  | _, [key] =>
+    match Toy.fns? cid key, Toy.cipher? cid n key with
+    | some (E, D), some c => some (.ok c, if key.length == n then some ⟨n, E, D⟩ else none)
+    | _, _ => none
+  | _, _ => none
+
 def handle : Handler := fun op args =>
   match op, args with
-  | "mode", [mode, toy, n, key, iv, pad, verb, msg] => do
+  | "mode", [mode, cid, n, key, iv, pad, verb, msg] => do
       let n ← parseNat? n
-      let key ← parseBytes? key
+      let keys ← (key.splitOn ",").mapM parseBytes?
       let iv ← parseIv? iv
       let s ← scheme? pad
       let m ← parseBytes? msg
-      let (E, D) ← Toy.fns? toy key
-      let c ← Toy.cipher? toy n key
-      let mr ← modelRun mode c iv s verb m
-      pure (mr, specRun mode n E D key iv s verb m)
+      let (c, k) ← instance? cid n keys
+      -- the two columns are independent computations: evaluate the spec column on a second thread
+      let sp := Task.spawn fun _ => specRun mode k iv s verb m
+      let mr ← match c with
+        | .ok c => modelRun mode c iv s verb m
+        | .error _ => (modelRun mode (Toy.rot n []) iv s verb []).map fun _ => "ERR"    -- the cipher constructor raised
+      pure (mr, sp.get)
   | "modert", [mode, _cipher, n, _key, _iv, pad, msg] => do
       let n ← parseNat? n
       let s ← scheme? pad
